@@ -129,3 +129,7 @@ FINDINGS += [
  F("C11", "C11 kzg FoldProof / BatchVerifySinglePoint on the empty batch", "a88cea6", "FoldProof / BatchVerifySinglePoint panicked on an empty batch (gammai[0].SetOne() on an empty slice) while BatchVerifyMultiPoints returns ErrZeroNbDigests", "C11 batch1 bn254 <tau> <z> <H> <v> - -   (Go panic before the repair; model follows it: C11_batchSingle_empty)", "ecc/*/kzg/kzg.go FoldProof"),
  F("C07", "C07 Encoder.Encode hides a write error of an inner vector", "67f33d2", "Encoder.Encode of [][]fr.Element / [][][]fr.Element overwrote err in the loop over the inner vectors: a failed write of any inner vector but the last returned nil for a truncated stream (counterpart of the Decoder defect e71aab4)", "C07 senc <curve> frss with a writer failing inside the first inner vector", "ecc/*/marshal.go encode / encodeRaw"),
 ]
+
+FINDINGS += [
+ F("C17", "C17 permutation.Verify: size never checked to be a power of two", "a837c8b", "permutation.Verify (and through it plookup.VerifyLookupTables; same code in plookup.VerifyLookupVector) took size and g from the proof, never checked that size is a power of two and tested g only by g^(size/2) != 1, (g^(size/2))^2 = 1: size = 3 with g = -1, size = 6 with g = -1, size = 12 with g of order 4 passed, and a complete proof derived consistently for that (size, g) was accepted for two vectors that are not permutations of each other (theorem C17c_genCheck_not_primitive_np2; found by the mut=consist ops added for seed C17r3-2)", "C17 permutation bn254 tau=5 n=a t1=1,2,3 t2=a,14,1e t1b=- t2b=- mut=consist i=0 m=7 fm=3 pw2=0 fg=30644e72e131a029b85045b68181585d2833e84879b9709143e1f593f0000000   (Go 1 before the repair; model 0)", "ecc/*/fr/permutation/permutation.go Verify, ecc/*/fr/plookup/vector.go VerifyLookupVector"),
+]
